@@ -22,10 +22,11 @@ type SpecEnv struct {
 	bound  map[string]SV
 	callee bool // evaluating a callee's contract: no access to the caller's cells
 	depth  int
+	loopPre *State
 }
 
 func (e *SpecEnv) clone() *SpecEnv {
-	n := &SpecEnv{fx: e.fx, cur: e.cur, old: e.old, names: map[string]SV{}, bound: map[string]SV{}, callee: e.callee, depth: e.depth}
+	n := &SpecEnv{fx: e.fx, cur: e.cur, old: e.old, names: map[string]SV{}, bound: map[string]SV{}, callee: e.callee, depth: e.depth, loopPre: e.loopPre}
 	for k, v := range e.names {
 		n.names[k] = v
 	}
@@ -780,6 +781,81 @@ func (fx *fnExec) evalCall(x ECall, env *SpecEnv) SV {
 			return Sc{a, nil}
 		}
 		return Sc{app(SInt, "mod", a, intLit(pow2(64))), nil}
+	case "entry":
+		// value of an expression in the state in which the enclosing loop was first reached (loop invariants only)
+		if env.loopPre == nil {
+			panic(vcErr("entry(...) is only meaningful in a loop invariant"))
+		}
+		ne := env.clone()
+		ne.cur = env.loopPre
+		return fx.evalSpec(x.Args[0], ne)
+	case "heap_unchanged_except", "only_fresh_modified":
+		// frame over all heaps whose name starts with the given prefix
+		pre, ok := x.Args[0].(EStr)
+		if !ok {
+			panic(vcErr("%s: first argument must be a heap-name prefix string", x.Fun))
+		}
+		var except []Term
+		for _, a := range x.Args[1:] {
+			v := fx.evalSpec(a, env)
+			if sl, ok := v.(Sl); ok {
+				except = append(except, sl.Arr)
+			} else {
+				except = append(except, fx.sc(v, SInt))
+			}
+		}
+		names := map[string]bool{}
+		for k := range env.cur.heaps {
+			names[k] = true
+		}
+		for k := range env.old.heaps {
+			names[k] = true
+		}
+		var cs []Term
+		for _, k := range sortedKeys(names) {
+			if !strings.HasPrefix(k, pre.V) || k == "$alive" {
+				continue
+			}
+			so := fx.heapSorts[k]
+			hc := fx.heap(env.cur, k, so)
+			ho := fx.heap(env.old, k, so)
+			if hc.S == ho.S {
+				continue
+			}
+			r := Term{"r$q", SInt}
+			var guard Term
+			if x.Fun == "only_fresh_modified" {
+				guard = tSel(fx.heap(env.old, "$alive", arrSort(SInt, SBool)), r)
+			} else {
+				var ne []Term
+				for _, e := range except {
+					ne = append(ne, tNot(tEq(r, e)))
+				}
+				guard = tAnd(ne...)
+			}
+			if _, es, _ := arrParts(so); strings.HasPrefix(es, "(Array") {
+				// two-level heap (slice elements): state the frame element-wise, no equalities between rows
+				is, _, _ := arrParts(es)
+				i := Term{"i$q", is}
+				body := tImp(guard, tEq(tSel(tSel(hc, r), i), tSel(tSel(ho, r), i)))
+				cs = append(cs, Term{fmt.Sprintf("(forall ((r$q Int) (i$q %s)) (! %s :pattern ((select (select %s r$q) i$q))))", is, body.S, hc.S), SBool})
+				continue
+			}
+			body := tImp(guard, tEq(tSel(hc, r), tSel(ho, r)))
+			cs = append(cs, Term{fmt.Sprintf("(forall ((r$q Int)) (! %s :pattern ((select %s r$q))))", body.S, hc.S), SBool})
+		}
+		return Sc{tAnd(cs...), nil}
+	case "fresh":
+		// allocated by this call: not alive before, alive now
+		v := fx.evalSpec(x.Args[0], env)
+		var t Term
+		if sl, ok := v.(Sl); ok {
+			t = sl.Arr
+		} else {
+			t = fx.sc(v, SInt)
+		}
+		so := arrSort(SInt, SBool)
+		return Sc{tAnd(tNot(tSel(fx.heap(env.old, "$alive", so), t)), tSel(fx.heap(env.cur, "$alive", so), t)), nil}
 	case "alive":
 		v := fx.sc(fx.evalSpec(x.Args[0], env), SInt)
 		return Sc{tSel(fx.heap(env.cur, "$alive", arrSort(SInt, SBool)), v), nil}
